@@ -12,6 +12,18 @@ from .engine import SV, PV, PyRaise, PyReturn, PyBreak, PyContinue, Unsupported,
 from . import ops as O
 
 
+def _key_string(dty, k):
+    """key string of an element of the key sequence of a dict: by the declared key kind of the dict when the
+    constructor of the key is not visible (dict[obj]:T -> object keys, dict[int]:T -> int keys)"""
+    head = (dty or '').split(':', 1)[0]
+    if vals._c(k) is None:
+        if '[obj]' in head:
+            return vals.OBJKEY(V.oid(k))
+        if '[int]' in head:
+            return vals.INTKEY(V.i(k))
+    return vals.ks(k)
+
+
 class Loops:
     def __init__(self, world):
         self.world = world
@@ -124,13 +136,13 @@ class Loops:
             keys = V.dkeys(d)
             ln = simp(z3.Length(keys))
             if z3.is_int_value(ln):
-                return vals.valseq([V.TupleV(vals.valseq([simp(keys[j]), simp(z3.Select(V.dmap(d), vals.ks(simp(keys[j]))))]))
+                return vals.valseq([V.TupleV(vals.valseq([simp(keys[j]), simp(z3.Select(V.dmap(d), _key_string(v.data.ty, simp(keys[j]))))]))
                                     for j in range(ln.as_long())])
             r = it.fresh('items', vals.SeqVal)
             i = z3.Int('i!di')
             it.assume_axiom(z3.Length(r) == z3.Length(keys))
             it.assume_axiom(z3.ForAll([i], z3.Implies(z3.And(0 <= i, i < z3.Length(r)),
-                                                r[i] == V.TupleV(vals.valseq([keys[i], z3.Select(V.dmap(d), vals.ks(keys[i]))])))))
+                                                r[i] == V.TupleV(vals.valseq([keys[i], z3.Select(V.dmap(d), _key_string(v.data.ty, keys[i]))])))))
             return r
         if v.kind == 'dictvalues':
             d = v.data.t
@@ -177,7 +189,7 @@ class Loops:
                 if vals._c(d) == 'DictV':
                     it.assume_axiom(vals.wf_known(d))
                 keys = V.dkeys(d)
-                return simp(z3.Length(keys)), (lambda i: V.TupleV(vals.valseq([keys[i], z3.Select(V.dmap(d), vals.ks(keys[i]))])))
+                return simp(z3.Length(keys)), (lambda i: V.TupleV(vals.valseq([keys[i], z3.Select(V.dmap(d), _key_string(v.data.ty, keys[i]))])))
             if v.kind == 'dictvalues':
                 d = v.data.t
                 keys = V.dkeys(d)
@@ -631,9 +643,11 @@ class Loops:
         # iteration over the keys of a dict / the elements of a set: the invariant may speak about the set of
         # keys already visited (`done__`), see invariant_loop
         keyinfo = None
+        self._key_is_obj = False
         if isinstance(itv, PV) and itv.kind == 'dictitems':
             d = it.refine(itv.data.t)
             keyinfo = (V.dhas(d), lambda el: V.titems(el)[0])
+            self._key_is_obj = bool(itv.data.ty and '[obj]' in itv.data.ty.split(':', 1)[0])
         elif isinstance(itv, SV):
             t = it.refine(itv.t)
             if vals._c(t) == 'DictV':
@@ -757,6 +771,8 @@ class Loops:
                 self.world.element_kind(it, seq[i], ety)
                 if ety and ety.startswith('tuple|') and ety.split('|')[1] not in ('?', ''):
                     self.world.element_kind(it, it.refine(keyof(seq[i])), ety.split('|')[1])
+                if getattr(self, '_key_is_obj', False):
+                    it.assume_axiom(V.is_ObjV(keyof(seq[i])))       # a dict declared dict[obj]:T has object keys
                 cur = it.refine(keyof(seq[i]))
                 curk = vals.ks(it.split_kind(SV(cur)).t)
                 it.assume_axiom(vals.key_axiom(it.refine(cur)))
